@@ -288,10 +288,15 @@ impl Primitive {
     pub fn as_integer_cast(&self) -> Result<i64, TransformError> {
         match self {
             Primitive::Integer(n) => Ok(*n),
-            Primitive::PositiveInteger(n) => Ok(*n as i64),
+            // a value outside the i64 range is not an integer of the language: it must not
+            // wrap (2^63 as i64 is negative) or saturate (1e19 as i64 is i64::MAX)
+            Primitive::PositiveInteger(n) => {
+                i64::try_from(*n).map_err(|_| wrong_argument!(PrimitiveKind::Integer, self))
+            }
             Primitive::Boolean(b) => Ok(*b as u8 as i64),
             Primitive::Number(n) => {
-                if float_ne(n.fract(), 0.0) {
+                let in_range = *n >= -9223372036854775808.0 && *n < 9223372036854775808.0;
+                if float_ne(n.fract(), 0.0) || !in_range {
                     Err(wrong_argument!(PrimitiveKind::Integer, self))
                 } else {
                     Ok(*n as i64)
@@ -313,17 +318,15 @@ impl Primitive {
     /// * `Err(TransformError)` - If the value cannot be converted to a usize
     pub fn as_usize_cast(&self) -> Result<usize, TransformError> {
         match self {
-            Primitive::PositiveInteger(n) => Ok(*n as usize),
-            Primitive::Integer(n) => {
-                if *n < 0 {
-                    Err(wrong_argument!(PrimitiveKind::PositiveInteger, self))
-                } else {
-                    Ok(*n as usize)
-                }
-            }
+            Primitive::PositiveInteger(n) => usize::try_from(*n)
+                .map_err(|_| wrong_argument!(PrimitiveKind::PositiveInteger, self)),
+            Primitive::Integer(n) => usize::try_from(*n)
+                .map_err(|_| wrong_argument!(PrimitiveKind::PositiveInteger, self)),
             Primitive::Boolean(b) => Ok(*b as u8 as usize),
             Primitive::Number(n) => {
-                if float_ne(n.fract(), 0.0) || float_lt(*n, 0.0) {
+                // usize::MAX as f64 rounds up to 2^64 (2^32 on 32 bit targets): strictly below it
+                let in_range = *n < usize::MAX as f64;
+                if float_ne(n.fract(), 0.0) || float_lt(*n, 0.0) || !in_range {
                     Err(wrong_argument!(PrimitiveKind::PositiveInteger, self))
                 } else {
                     Ok(*n as usize)
